@@ -2,6 +2,7 @@ package checks
 
 import (
 	"context"
+	"errors"
 	"fmt"
 	"runtime"
 	"sort"
@@ -29,8 +30,8 @@ func init() {
 			}
 			return 4 + 240 + 16
 		},
-		Race:        true,
-		MaxWorkers:  4,
+		Race:       true,
+		MaxWorkers: 4,
 		RaceIsViolation: func(pair string) bool {
 			// both stacks inside rwmutex.go
 			parts := strings.Split(pair, " <-> ")
@@ -52,7 +53,7 @@ type rwSpec struct {
 }
 
 func (s rwSpec) clone() rwSpec { return rwSpec{g: append([]int8(nil), s.g...)} }
-func (s rwSpec) key() string    { return fmt.Sprint(s.g) }
+func (s rwSpec) key() string   { return fmt.Sprint(s.g) }
 
 func (s rwSpec) others(i int) (shared int, excl bool) {
 	for j, v := range s.g {
@@ -460,6 +461,14 @@ func c12BlockingOnce(c *core.Case, last bool) (retry bool) {
 	}
 	ctx, cancel := context.WithCancel(context.Background())
 	defer cancel()
+	customCtx := (c.Index/8)%2 == 1
+	if customCtx {
+		// a context implemented outside the standard library (like the store's
+		// primary context): done when its channel closes, with its own error
+		cc := &c12Ctx{Context: context.Background(), done: make(chan struct{})}
+		ctx, cancel = cc, func() { cc.once.Do(func() { close(cc.done) }) }
+		defer cancel()
+	}
 	type result struct {
 		err error
 		at  time.Time
@@ -508,7 +517,7 @@ func c12BlockingOnce(c *core.Case, last bool) (retry bool) {
 			holder.Unlock()
 			return true
 		}
-		c.Distinct(fmt.Sprintf("blocking/cancel/w%v/h%v", wantExcl, holdExcl))
+		c.Distinct(fmt.Sprintf("blocking/cancel/w%v/h%v/custom%v", wantExcl, holdExcl, customCtx))
 		return false
 	}
 	released.Store(time.Now().UnixNano())
@@ -538,4 +547,20 @@ func c12BlockingOnce(c *core.Case, last bool) (retry bool) {
 	}
 	c.Distinct(fmt.Sprintf("blocking/release/w%v/h%v", wantExcl, holdExcl))
 	return false
+}
+
+type c12Ctx struct {
+	context.Context
+	done chan struct{}
+	once sync.Once
+}
+
+func (c *c12Ctx) Done() <-chan struct{} { return c.done }
+func (c *c12Ctx) Err() error {
+	select {
+	case <-c.done:
+		return errors.New("custom context ended")
+	default:
+		return nil
+	}
 }
